@@ -244,7 +244,7 @@ func TestVerifC44(t *testing.T) {
 	c44Pool = rec.RNG("pool").Bytes(env.Pick(13, 25) << 20)
 
 	classes := []string{"tiny", "small", "half", "exact", "oversize", "fill", "edge", "mixed", "mixed"}
-	n := env.Pick(96, 2000)
+	n := env.Pick(96, 256)
 	light := os.Getenv("C44_LIGHT") == "1" // the quick-tier race unit: few, cheap sessions
 	if light {
 		n = 16
@@ -257,7 +257,7 @@ func TestVerifC44(t *testing.T) {
 	// big-memory cases: thorough only, and one regression witness in quick (see known finding)
 	nBig := 0
 	if env.Thorough() {
-		for _, c := range []string{"hdr-merge", "hdr-full", "hdr-merge-v2"} {
+		for _, c := range []string{"hdr-merge", "hdr-full"} { // (the 64 MiB / compressed variant is covered by the packer-manager unit case)
 			sessions = append(sessions, c44Sess{Class: c})
 			nBig++
 		}
